@@ -122,7 +122,10 @@ Print Assumptions C09_upmx_perm.
 Theorem C09_ordered_perm : forall p1 p2 : list Z,
   is_perm p1 -> is_perm p2 -> length p1 = length p2 -> (2 <= length p1)%nat ->
   always (cxOrdered p1 p2) (fun c =>
-    is_perm (fst c) /\ is_perm (snd c) /\ Permutation (fst c) p1 /\ Permutation (snd c) p2).
+    (is_perm (fst c) /\ is_perm (snd c) /\ Permutation (fst c) p1 /\ Permutation (snd c) p2) /\
+    (* and on the segment [a, b] each child holds the other parent's genes *)
+    exists a b : nat, (a < b < length p1)%nat /\
+      forall i, (a <= i <= b)%nat -> swapped_at p1 p2 (fst c) (snd c) i).
 Proof. exact ordered_thm. Qed.
 Print Assumptions C09_ordered_perm.
 
